@@ -451,7 +451,8 @@ def oracle(ctx, R, units, case):
             continue
         xu = r.headers.get("X-U")
         import re as _re
-        us = [int(x) for x in _re.findall(r"\d+", xu or "") if int(x) in by_u]
+        us = [int(m.group(1)) for part in (xu or "").split(",") for m in [_re.match(r"\s*(\d+)", part)] if m]
+        us = [int(x) for x in us if int(x) in by_u]
         if not us:
             viol.append(("C06/stale-bytes/unattributable-response", f"response {j} (status {r.status}) carries no known unit marker: {xu!r}"))
             continue
@@ -621,14 +622,40 @@ def evaluate(ctx, R, units, variants, cfg, where, sample=False):
 
 def check(ctx):
     rng = ctx.rng
-    n_same = 1200 if ctx.quick else 50000
-    n_keys = 300 if ctx.quick else 8000
+    n_same = 1200 if ctx.quick else 16000
+    n_keys = 300 if ctx.quick else 3000
     jobs = []
     for i in range(n_same + n_keys):
         cfg = cfg_draw(rng)
         keyset = KEYSETS_SAME[0] if i < n_same else key_variants(rng)
         jobs.append((cfg, rng.getrandbits(48), keyset, rng.randint(2, 6), rng.getrandbits(32)))
     lines, recs = [], []
+    state = {"n_pred": 0}
+
+    def flush():
+        """replay the batch on the model, compare, forget it"""
+        if not lines:
+            return
+        outs = ctx.model(lines)
+        if outs is not None:
+            for (case, rstates, rops, viol), out in zip(recs, outs):
+                parts = out.split(" | ")
+                ghost = parts[-1] if parts and parts[-1].startswith("G[") else "G[?]"
+                states = parts[:-1]
+                ok = ctx.compare(case, rstates, states, "ClientSession history vs Aio.C06.World.run")
+                if not ok:
+                    for i, (a, b) in enumerate(zip(rstates, states)):
+                        if a != b:
+                            ctx.hit("mismatch-at:" + rops[i][0])
+                            break
+                    continue
+                # ghost semantics: the model's own-bytes verdict and the oracle's must agree on which exchanges got foreign bytes
+                pred = sorted(int(x) for x in ghost[2:-1].split(",") if x)
+                got = sorted({int(d.split()[1]) for s, d in viol if s.startswith("C06/stale-bytes/")})
+                state["n_pred"] += bool(pred)
+                ctx.compare({"ghost": True, **case}, got, pred, "oracle stale-bytes verdict vs model ghost tags")
+        del lines[:], recs[:]
+
     # corpus first
     cdir = os.path.join(os.path.dirname(os.path.dirname(os.path.abspath(__file__))), "corpus", "C06")
     if os.path.isdir(cdir):
@@ -638,36 +665,23 @@ def check(ctx):
                     case = json.load(f)
                 R, units = run_fixed(case)
                 c2, viol = evaluate(ctx, R, units, {int(k): v for k, v in case.get("variants", {}).items()}, case["cfg"], "corpus")
-                recs.append((c2, R, viol)); lines.append(model_line(case["cfg"], R.ops))
+                recs.append((c2, R.states, R.ops, viol)); lines.append(model_line(case["cfg"], R.ops))
                 ctx.hit("corpus")
     for n, (cfg, seed, keyset, max_req, vs) in enumerate(jobs):
-        if ctx.time_left() is not None and ctx.time_left() < 12:
+        if ctx.time_left() is not None and ctx.time_left() < 20:
             ctx.notes.append(f"time budget: stopped after {n} of {len(jobs)} histories")
             break
         R, units, variants = run_case(ctx, cfg, seed, keyset, max_req, vs)
         case, viol = evaluate(ctx, R, units, variants, cfg, "walk", sample=(n % 97 == 0))
-        recs.append((case, R, viol)); lines.append(model_line(cfg, R.ops))
-    outs = ctx.model(lines)
-    if outs is None:
-        return
-    n_pred = 0
-    for (case, R, viol), out in zip(recs, outs):
-        parts = out.split(" | ")
-        ghost = parts[-1] if parts and parts[-1].startswith("G[") else "G[?]"
-        states = parts[:-1]
-        ok = ctx.compare(case, R.states, states, "ClientSession history vs Aio.C06.World.run")
-        if not ok:
-            for i, (a, b) in enumerate(zip(R.states, states)):
-                if a != b:
-                    ctx.hit("mismatch-at:" + R.ops[i][0])
-                    break
-            continue
-        # ghost semantics: the model's own-bytes verdict and the oracle's must agree on which exchanges got foreign bytes
-        pred = sorted(int(x) for x in ghost[2:-1].split(",") if x)
-        got = sorted({int(d.split()[1]) for s, d in viol if s.startswith("C06/stale-bytes/")})
-        n_pred += bool(pred)
-        ctx.compare({"ghost": True, **case}, got, pred, "oracle stale-bytes verdict vs model ghost tags")
-    ctx.extra["histories_with_model_predicted_stale_delivery"] = n_pred
+        recs.append((case, R.states, R.ops, viol)); lines.append(model_line(cfg, R.ops))
+        del R
+        if len(lines) >= 400:
+            flush()
+    flush()
+    ctx.extra["histories_with_model_predicted_stale_delivery"] = state["n_pred"]
+    if os.environ.get("C06_DUMP"):
+        with open(os.environ["C06_DUMP"], "w") as f:
+            json.dump(ctx.mismatches[:10], f, default=repr)
 
 
 def replay(ctx, case):
